@@ -191,7 +191,8 @@ def gen_own(seed, tier, focus):
     def rop():
         k = rng.choice([1, 1, 2, 2, 2, 3, 3, 4, 5, 5, 6, 7, 8])
         m, i, j = rng.randint(0, 1), rng.randint(0, 3), rng.randint(0, 3)
-        return {1: [1, m, j], 2: [2, m, j], 3: [3, j], 4: [4, j], 5: [5, i, j], 6: [6, i, j], 7: [7, j], 8: [8, m]}[k]
+        cb = [2, m, j] + [rng.randint(0, 3) for _ in range(rng.choice([0, 0, 1, 2]))]
+        return {1: [1, m, j], 2: cb, 3: [3, j], 4: [4, j], 5: [5, i, j], 6: [6, i, j], 7: [7, j], 8: [8, m]}[k]
     for c in range(n):
         style = rng.random()
         ops = []
@@ -203,12 +204,18 @@ def gen_own(seed, tier, focus):
             ops = [[1, a, j]] + [[2, a, rng.randint(0, 3)] for _ in range(rng.randint(0, 3))]
             ops += [rng.choice([[1, 1 - a, j], [1, b, j], [2, 1 - a, j], [5, i, j], [1, 1 - a, i], [6, i, j]])]
             ops += [[8, a], [8, 1 - a], [7, j]] + [rop() for _ in range(rng.randint(0, 8))]
-        elif style < 0.9:
+        elif style < 0.85:
             # re-entrancy: the next waiter's callback stores its ownership into the slot that is being given up
             a, j = rng.randint(0, 1), rng.randint(0, 3)
             ops = [[1, a, j], [2, a, j]] + [[2, a, rng.choice([j, rng.randint(0, 3)])] for _ in range(rng.randint(0, 3))]
             ops += [rng.choice([[3, j], [3, j], [1, 1 - a, j], [5, (j + 1) % 4, j], [1, a, j]])]
             ops += [[7, j], [8, a], [3, j], [3, j], [8, a]] + [rop() for _ in range(rng.randint(0, 6))]
+        elif style < 0.93:
+            # a callback that releases two ownerships (of two mutexes) inside the hand-over
+            a, j, i, q = rng.randint(0, 1), rng.randint(0, 3), rng.randint(0, 3), rng.randint(0, 3)
+            ops = [[1, a, j], [1, 1 - a, i], [2, a, q, q, i] if rng.random() < 0.5 else [2, a, q, i, q]]
+            ops += [[2, 1 - a, rng.randint(0, 3)] for _ in range(rng.randint(0, 2))]
+            ops += [[3, j], [8, a], [8, 1 - a]] + [rop() for _ in range(rng.randint(0, 6))]
         else:
             # release twice, destroy, self move, moved-from
             j, a = rng.randint(0, 3), rng.randint(0, 1)
